@@ -195,13 +195,16 @@ class _SubclassedWrapperBase(ClassWrapper):
     kwargs = dict(self.sym_init_args)
     list_args = []
 
+    # Positional arguments are passed by position, so positional-only
+    # arguments of the user class are supported.
+    varargs = []
     if init_arg_list and init_arg_list[-1].startswith('*'):
-      vararg_name = init_arg_list[-1][1:]
-      varargs = kwargs.pop(vararg_name)
-      for arg_name in init_arg_list[:-1]:
-        assert arg_name in kwargs
-        list_args.append(kwargs.pop(arg_name))
-      list_args.extend(varargs)
+      varargs = kwargs.pop(init_arg_list[-1][1:])
+      init_arg_list = init_arg_list[:-1]
+    for arg_name in init_arg_list:
+      assert arg_name in kwargs
+      list_args.append(kwargs.pop(arg_name))
+    list_args.extend(varargs)
     self._init_user_cls(*list_args, **kwargs)
 
   def __post_init__(self):
